@@ -418,6 +418,8 @@ class Interp(object):
             hit, v = self.domain.global_override(self, module, name)
             if hit:
                 return v
+        if name == "__name__":
+            return module.name
         r = self.repo.resolve(module, name)
         if r is None:
             if name in BUILTIN_EXC:
@@ -1604,7 +1606,15 @@ def _b_id(it, a, k):
 
 
 def _b_hash(it, a, k):
-    it.unsupported("hash()")
+    # only ever stored as a cached __hash__ value; dictionaries of the analyser hash abstract
+    # objects by identity, so the number itself is immaterial
+    v = a[0]
+    if _has_abs(v):
+        return 0
+    try:
+        return hash(v)
+    except TypeError as ex:
+        raise AbsRaise("TypeError", ex.args)
 
 
 def _b_getattr(it, a, k):
